@@ -908,10 +908,81 @@ def _references(tree, d):
     return False
 
 
+def _renest_promoted(tree, known, keep_names, stats):
+    """A nested helper of the reference tree (`Outer.helper`) that was promoted to a module-level function or a method (`_helper`, called only from
+    Outer) is moved back into Outer under its old name: the anchor `Outer.helper` exists again.  Moving a definition that closes over nothing into the
+    only function that calls it changes no behaviour (its free names must not be locals of Outer)."""
+    defs = _enumerate_defs(tree)
+    present = {d.qual for d in defs}
+    by_qual = {d.qual: d for d in defs}
+    changed = False
+    for d in defs:
+        if d.qual in known or d.kind not in ("module", "method") or d.deco not in (None, "staticmethod") or d.node.name in keep_names:
+            continue
+        base = d.node.name.lstrip("_")
+        targets = [q for q in known if q not in present and q.rsplit(".", 1)[-1] in (base, d.node.name) and "." in q and q.rsplit(".", 1)[0] in by_qual]
+        if len(targets) != 1:
+            continue
+        outer = by_qual[targets[0].rsplit(".", 1)[0]]
+        if d.kind == "method" and outer.cls != d.cls:
+            continue
+        try:
+            _check_def(d)
+        except Bail:
+            continue
+        nm = d.node.name
+        # every reference to the promoted helper must be a direct call inside Outer
+        refs_ok = True
+        calls = []
+        for n in ast.walk(tree):
+            if _is_inside(d.node, n) or n is d.node:
+                continue
+            hit = (isinstance(n, ast.Name) and n.id == nm) or (isinstance(n, ast.Attribute) and n.attr == nm) or \
+                (isinstance(n, ast.Constant) and n.value == nm)
+            if hit and not _is_inside(outer.node, n):
+                refs_ok = False
+        for n in ast.walk(outer.node):
+            if isinstance(n, ast.Call):
+                f = n.func
+                if d.kind == "module" and isinstance(f, ast.Name) and f.id == nm:
+                    calls.append(n)
+                elif d.kind == "method" and isinstance(f, ast.Attribute) and f.attr == nm and isinstance(f.value, ast.Name) and f.value.id in ("self", "cls", d.cls):
+                    calls.append(n)
+        call_funcs = {id(c.func) for c in calls}
+        for n in ast.walk(outer.node):
+            if ((isinstance(n, ast.Name) and n.id == nm) or (isinstance(n, ast.Attribute) and n.attr == nm)) and id(n) not in call_funcs:
+                refs_ok = False
+        if not refs_ok or not calls:
+            continue
+        if _free_names(d) & _bound_names(outer.node):
+            continue
+        new_name = targets[0].rsplit(".", 1)[-1]
+        if new_name in _all_names(outer.node) and new_name != nm:
+            continue
+        # move
+        d.owner.remove(d.node)
+        if not d.owner:
+            d.owner.append(ast.Pass())
+        d.node.name = new_name
+        d.node.decorator_list = []
+        for c in calls:
+            if d.kind == "method" and d.deco is None:
+                c.args.insert(0, c.func.value)
+            c.func = ast.copy_location(ast.Name(id=new_name, ctx=ast.Load()), c.func)
+        body = outer.node.body
+        at = 1 if body and isinstance(body[0], ast.Expr) and isinstance(body[0].value, ast.Constant) and isinstance(body[0].value.value, str) else 0
+        body.insert(at, d.node)
+        changed = True
+        if stats is not None:
+            stats.append((d.qual, "renested as " + targets[0], d.node.lineno))
+    return changed
+
+
 def inline_new_helpers(tree, known, keep_names=frozenset(), stats=None):
     """known: set of qualified function names of the reference tree (None: pass disabled)."""
     if known is None:
         return tree
+    _renest_promoted(tree, known, keep_names, stats)
     for _round in range(4):
         defs = _enumerate_defs(tree)
         cands = []
